@@ -178,6 +178,17 @@ func gen(g *vh.Gen) {
 	g.Emit("mem", "1", "0", "g:2:x", "a:2:1:10,v,g:2:x")
 	g.Emit("mem", "0", "0", "a:1:90:10", "a:1:1:10,r:1:1,l:1")
 	g.Emit("mem", "1", "0", "a:1:90:10", "a:1:1:10,a:1:2:10,v")
+	// two removals of the SAME message overlapping (in any order exactly one succeeds), a removal against a purge and
+	// against the cap eviction of that message; with the size limit: the enforcer must not subtract a size twice —
+	// a later delivery that makes the store exceed the limit has to evict
+	g.Emit("mem", "0", "0", "a:1:90:10", "r:1:90,r:1:90")
+	g.Emit("mem", "0", "0", "a:1:90:10,a:1:91:10", "r:1:90,r:1:90,l:1")
+	g.Emit("mem", "0", "0", "a:1:90:10", "r:1:90,p:1")
+	g.Emit("mem", "1", "0", "a:1:90:10", "r:1:90,a:1:1:10")
+	g.Emit("mem", "0", "1", "a:1:90:400", "r:1:90,r:1:90")
+	g.Emit("mem", "0", "1", "a:1:90:400,a:2:91:400", "r:1:90,r:1:90,a:2:1:700")
+	g.Emit("mem", "0", "1", "a:1:90:400", "r:1:90,p:1")
+	g.Emit("file", geo(), "a:1:90:10", "r:1:90,r:1:90")
 	g.Emit("file", geo(), "a:1:90:10", "p:1,v")
 	g.Emit("file", geo(), "a:1:90:10,a:4:91:10", "r:1:90,v,a:4:1:10")
 	g.Emit("file", geo(), "a:1:90:10,a:3:91:10", "p:1,v,p:3")
